@@ -110,6 +110,9 @@ def _val(draw, depth, vars_, counter):
             return f"First({draw(_seq(depth - 1, vars_, counter, False))}).pt" if vars_ else "3"
         if k == 2:
             return f"({draw(_val(depth - 1, vars_, counter))}, {draw(_val(depth - 1, vars_, counter))})"
+        if k == 3 and draw(st.integers(0, 2)) == 0:
+            # a ** spread in front of / between named entries (the key list of the Dict node then holds a None)
+            return f"{{**{draw(_val(depth - 1, vars_, counter))}, 'a': {draw(_val(depth - 1, vars_, counter))}, **other, 'b': {draw(_val(depth - 1, vars_, counter))}}}"
         if k == 3:
             return f"{{'a': {draw(_val(depth - 1, vars_, counter))}, 'b': {draw(_val(depth - 1, vars_, counter))}}}"
         if k == 4:
